@@ -36,18 +36,41 @@ impl<S: Storage> TableScanExecutor<S> {
             col_idx.push(StorageColumnRef::RowHandler);
         }
 
+        // The planner assumes that a scan of a keyed table of the secondary storage returns rows
+        // in primary-key order (`Config::table_is_sorted_by_primary_key`), and may have dropped
+        // an ORDER BY (and then the key column itself) relying on it. Row-sets are only sorted
+        // individually, so ask for the merging iterator; it needs every sort-key column in the
+        // scan list: the missing ones are scanned too and dropped from the output.
+        let user_columns = col_idx.len();
+        let mut is_sorted = false;
+        if self.storage.as_disk().is_some() && !self.columns.is_empty() {
+            for (idx, column) in table.columns()?.iter().enumerate() {
+                if column.is_primary() {
+                    is_sorted = true;
+                    let key = StorageColumnRef::Idx(idx as u32);
+                    if !col_idx.contains(&key) {
+                        col_idx.push(key);
+                    }
+                }
+            }
+        }
+
         let txn = table.read().await?;
 
         let mut it = txn
             .scan(
                 &col_idx,
-                ScanOptions::default().with_filter_opt(self.filter),
+                ScanOptions::default()
+                    .with_filter_opt(self.filter)
+                    .with_sorted(is_sorted),
             )
             .await?;
 
         while let Some(mut x) = it.next_batch(None).await? {
             if self.columns.is_empty() {
                 x = DataChunk::no_column(x.cardinality());
+            } else if col_idx.len() > user_columns {
+                x = x.arrays()[..user_columns].iter().cloned().collect();
             }
             yield x;
         }
